@@ -37,7 +37,33 @@ PROPS["C03"] = dict(
          "collection with >=2 members met during evaluation, TLC outcome not an error; distinct by rendered expression.",
     runs=[
         dict(test="TestC03Expr", quick=dict(checks=160000, shards=16, timeout=600), thorough=dict(checks=4000000, shards=16, timeout=3000)),
-        dict(test="TestC03TLC", quick=dict(checks=1500, shards=1, timeout=600), thorough=dict(checks=40000, shards=1, timeout=3000)),
-        dict(test="FuzzC03", kind="fuzz", thorough=dict(checks=1, shards=1, fuzztime="420s", parallel=16, timeout=900)),
+        dict(test="TestC03TLC", late=True, quick=dict(checks=1500, shards=1, timeout=600), thorough=dict(checks=40000, shards=1, timeout=3000)),
+        dict(test="FuzzC03", kind="fuzz", late=True, thorough=dict(checks=1, shards=1, fuzztime="420s", parallel=16, timeout=900)),
+    ],
+)
+
+PROPS["C05"] = dict(
+    pkg="c05", level="exploration",
+    technique="property-based testing (rapid): algebraic laws and round-trips over generated values realised in several construction orders; model-based map histories; printed form re-parsed by an independent parser and by TLC",
+    level_text="Generated values (depth<=3, printable-ASCII strings, int32 boundaries) each realised through constructors in permuted orders, "
+               "through operators and through gob; laws checked: Equal equivalence vs structural equality, Equal=>Hash, membership/lookup/"
+               "HashMap/immutable.Map agreement with a reference map, gob identity (bare, in structs/interfaces, streams, with causal clocks), "
+               "VClock join laws, String() denotes the value. Sampling, not proof.",
+    level_note="Trusts the harness's canonical value model and its small TLA+ parser (cross-checked by TLC on a batch); the causal-wrapper half "
+               "runs in a second process started with PGO_TRACE_DIR, because wrapping is decided at package init.",
+    rule="values drawn by type (depth 0-3) and realised in >=2 ways; non-trivial = nesting depth>=2 with some set/function of >=2 members; "
+         "distinct by canonical text (per sub-property prefix).",
+    runs=[
+        dict(test="TestC05EqualHash", quick=dict(checks=40000, shards=8, timeout=300), thorough=dict(checks=1600000, shards=16, timeout=2400)),
+        dict(test="TestC05Maps", quick=dict(checks=8000, shards=4, timeout=300), thorough=dict(checks=320000, shards=16, timeout=2400)),
+        dict(test="TestC05Gob", quick=dict(checks=16000, shards=4, timeout=300), thorough=dict(checks=640000, shards=16, timeout=2400)),
+        dict(test="TestC05VClock", quick=dict(checks=8000, shards=2, timeout=300), thorough=dict(checks=200000, shards=8, timeout=2400)),
+        dict(test="TestC05String", quick=dict(checks=24000, shards=4, timeout=300), thorough=dict(checks=800000, shards=16, timeout=2400)),
+        dict(test="TestC05ZeroValue", quick=dict(checks=200, shards=1, timeout=120), thorough=dict(checks=2000, shards=1, timeout=300)),
+        dict(test="TestC05StringTLC", late=True, quick=dict(checks=600, shards=1, timeout=600), thorough=dict(checks=20000, shards=1, timeout=2400)),
+        # the same laws with causal wrapping switched on (decided in package init from the environment)
+        dict(test="TestC05EqualHash", env={"PGO_TRACE_DIR": "@TMP/trace"}, quick=dict(checks=16000, shards=4, timeout=300), thorough=dict(checks=400000, shards=8, timeout=2400)),
+        dict(test="TestC05Gob", env={"PGO_TRACE_DIR": "@TMP/trace"}, quick=dict(checks=8000, shards=2, timeout=300), thorough=dict(checks=200000, shards=8, timeout=2400)),
+        dict(test="TestC05Maps", env={"PGO_TRACE_DIR": "@TMP/trace"}, quick=dict(checks=3000, shards=1, timeout=300), thorough=dict(checks=100000, shards=4, timeout=2400)),
     ],
 )
